@@ -1,8 +1,120 @@
-(* PropC06.v -- property C06: reported partition structure is truthful (placeholder statements are replaced
-   when DivisionsProofs.v lands).  Already proved and relevant here: lengths answered through
-   length-preserving operators (schema S13 of the verified rule checker), and the partition counts of the
-   repartitioning / shuffle layers. *)
-From DX Require Import Base Plan PlanProofs Repart RepartCount.
+(* PropC06.v -- property C06: reported partition structure (npartitions, divisions, lengths) is truthful.
+   `truthful divs parts` (Divisions.v) is the property's own statement: npartitions+1 sorted entries and every
+   computed partition i holds only index values in [divs_i, divs_{i+1}) (last partition: closed).
+   Each theorem says: if the input's report is truthful then the report derived by the operator's formula is truthful
+   for the partitions the operator computes -- for all divisions, partitions, selections, steps and boundaries.
+   The formulas are tied to the real _divisions() methods by the T-LAYER "divisions" correspondence of the C06 check.
+   The *_refuted theorems record what the unfixed code did (defects D8, D10, D20, D35, D36 and seed C06_a). *)
+From DX Require Import Base Plan PlanProofs Repart RepartCount Divisions DivisionsProofs DivisionsExtra GeneratedClassTable ClassTableChecks ClassTableDivisions ClassTableLengthFlags.
+
+(* the executable test used by the harness on computed partitions means exactly the property *)
+Theorem C06_truthfulb_spec : forall divs parts, truthfulb divs parts = true <-> truthful divs parts.
+Proof. exact truthfulb_spec. Qed.
+Print Assumptions C06_truthfulb_spec.
+
+(* partitions[...] / partition-filtered sources *)
+Theorem C06_partitions_truthful : forall divs parts sel d',
+  truthful divs parts -> (forall p, In p sel -> p < length parts) -> sel <> [] ->
+  partitions_divisions divs sel = Some d' -> truthful d' (select_parts parts sel).
+Proof. exact partitions_truthful. Qed.
+Print Assumptions C06_partitions_truthful.
+
+Theorem C06_partitions_known_iff_increasing : forall divs sel,
+  (exists d', partitions_divisions divs sel = Some d') <-> sinc sel.
+Proof. exact partitions_divisions_known_iff. Qed.
+Print Assumptions C06_partitions_known_iff_increasing.
+
+Theorem C06_partitions_unsorted_refuted : exists divs parts sel,
+  truthful divs parts /\ (forall p, In p sel -> p < length parts) /\ sel <> [] /\
+  ~ truthful (partitions_divisions_old divs sel) (select_parts parts sel).
+Proof. exact partitions_unsorted_refuted. Qed.
+Print Assumptions C06_partitions_unsorted_refuted.
+
+(* partitionwise operators report their input's divisions: right iff it is the input they really read *)
+Theorem C06_partitionwise_keeps_divisions : forall divs parts parts',
+  truthful divs parts -> length parts' = length parts ->
+  (forall i x, i < length parts -> In x (nth i parts' []) -> In x (nth i parts [])) ->
+  truthful divs parts'.
+Proof. exact truthful_subset. Qed.
+Print Assumptions C06_partitionwise_keeps_divisions.
+
+Theorem C06_derived_of_selection_truthful : forall divs parts sel d' parts',
+  truthful divs parts -> (forall p, In p sel -> p < length parts) -> sel <> [] ->
+  partitions_divisions divs sel = Some d' -> length parts' = length sel ->
+  (forall i x, i < length sel -> In x (nth i parts' []) -> In x (nth i (select_parts parts sel) [])) ->
+  truthful d' parts'.
+Proof. exact derived_of_selection_truthful. Qed.
+Print Assumptions C06_derived_of_selection_truthful.
+
+Theorem C06_raw_divisions_of_selection_refuted : forall divs parts sel,
+  truthful divs parts -> length sel <> length parts -> ~ truthful divs (select_parts parts sel).
+Proof. exact raw_divisions_of_selection_refuted. Qed.
+Print Assumptions C06_raw_divisions_of_selection_refuted.
+
+Theorem C06_longer_divisions_refuted : forall divs divs' parts,
+  truthful divs parts -> length divs' <> length divs -> ~ truthful divs' parts.
+Proof. exact longer_divisions_refuted. Qed.
+Print Assumptions C06_longer_divisions_refuted.
+
+(* T-GEN: no method in the current source reads an operand's raw _divisions() outside the reviewed sites *)
+Theorem C06_no_raw_operand_divisions : raw_divisions_b = true.
+Proof. exact raw_divisions_reviewed_ok. Qed.
+Print Assumptions C06_no_raw_operand_divisions.
+
+(* fused multi-file reads *)
+Theorem C06_fused_truthful : forall divs parts parts_sel step,
+  truthful divs parts -> strictly_increasingb parts_sel = true ->
+  (forall p, In p parts_sel -> p < length parts) -> 1 <= step -> parts_sel <> [] ->
+  truthful (fused_divisions divs (fusion_buckets parts_sel step)) (fused_parts parts (fusion_buckets parts_sel step)).
+Proof. exact fused_truthful. Qed.
+Print Assumptions C06_fused_truthful.
+
+Theorem C06_fused_old_refuted : exists divs parts parts_sel step,
+  truthful divs parts /\ strictly_increasingb parts_sel = true /\
+  (forall p, In p parts_sel -> p < length parts) /\ 1 <= step /\ parts_sel <> [] /\
+  ~ truthful (fused_divisions_old divs (fusion_buckets parts_sel step)) (fused_parts parts (fusion_buckets parts_sel step)).
+Proof. exact fused_divisions_old_refuted. Qed.
+Print Assumptions C06_fused_old_refuted.
+
+(* repartition to fewer partitions *)
+Theorem C06_fewer_truthful : forall divs parts bs,
+  truthful divs parts -> DivisionsProofs.chain bs (length parts) -> interior_below bs (length parts) ->
+  truthful (fewer_divisions divs bs) (fewer_parts parts bs).
+Proof. exact fewer_truthful. Qed.
+Print Assumptions C06_fewer_truthful.
+
+Theorem C06_fewer_trailing_empty_refuted : exists divs parts bs,
+  truthful divs parts /\ DivisionsProofs.chain bs (length parts) /\ ~ truthful (fewer_divisions divs bs) (fewer_parts parts bs).
+Proof. exact fewer_trailing_empty_refuted. Qed.
+Print Assumptions C06_fewer_trailing_empty_refuted.
+
+(* head / tail *)
+Theorem C06_head_truthful : forall divs parts k nrows,
+  truthful divs parts -> k <= length parts -> truthful (head_divisions divs k) (head_parts parts k nrows).
+Proof. exact head_truthful. Qed.
+Print Assumptions C06_head_truthful.
+
+Theorem C06_blockwise_head_truthful : forall divs parts k nrows,
+  truthful divs parts -> k <= length parts -> truthful (bhead_divisions divs k) (bhead_parts parts k nrows).
+Proof. exact bhead_truthful. Qed.
+Print Assumptions C06_blockwise_head_truthful.
+
+Theorem C06_tail_truthful : forall divs parts nrows,
+  truthful divs parts -> parts <> [] -> truthful (tail_divisions divs) (tail_parts parts nrows).
+Proof. exact tail_truthful. Qed.
+Print Assumptions C06_tail_truthful.
+
+(* concat along the rows *)
+Theorem C06_concat_truthful : forall ds pss R,
+  Forall2 truthful ds pss -> concat_divisions ds = Some R -> truthful R (concat_parts pss).
+Proof. exact concat_truthful_n. Qed.
+Print Assumptions C06_concat_truthful.
+
+Theorem C06_concat_touching_refuted : exists A pa B pb R,
+  truthful A pa /\ truthful B pb /\ last A 0%Z = hd 0%Z B /\
+  concat_divisions2_touching A B = Some R /\ ~ truthful R (pa ++ pb).
+Proof. exact concat_touching_refuted. Qed.
+Print Assumptions C06_concat_touching_refuted.
 
 (* len() pushed through length-preserving operators: every accepted step keeps the value *)
 Theorem C06_len_pushdown_sound : forall parent result, rule_ok parent result = true ->
@@ -12,6 +124,12 @@ Print Assumptions C06_len_pushdown_sound.
 
 (* count-based repartitioning reports exactly the number of partitions it computes *)
 Theorem C06_repartition_counts : forall (row : Type) (P : list (list row)) (bs : list nat),
-  chain 0 bs (length P) -> length (exec_fewer (0 :: bs) P) = length bs.
+  RepartCount.chain 0 bs (length P) -> length (exec_fewer (0 :: bs) P) = length bs.
 Proof. intros. apply fewer_count. Qed.
 Print Assumptions C06_repartition_counts.
+
+(* T-GEN: every class of the current source that lets len() be answered through it (_is_length_preserving) is
+   element-wise or on the reviewed list *)
+Theorem C06_length_flags_reviewed : length_flags_b = true.
+Proof. exact length_flags_reviewed. Qed.
+Print Assumptions C06_length_flags_reviewed.
